@@ -11,7 +11,6 @@ open Scalar C15 C15.Spec
 set_option maxRecDepth 4000
 set_option linter.unusedSimpArgs false
 noncomputable section
-namespace C15
 
 /-! ## 1. the segment predicate and simplicity -/
 
@@ -22,6 +21,21 @@ theorem segments_meet_symm (a b c d : P2 ℝ) : segMeet a b c d = segMeet c d a 
 theorem segments_meet_flip (a b c d : P2 ℝ) :
     segMeet b a c d = segMeet a b c d ∧ segMeet a b d c = segMeet a b c d :=
   ⟨segMeet_flip a b c d, segMeet_flip' a b c d⟩
+
+/-- **the decision procedure means what it should**: `segMeet` holds iff the two CLOSED segments have a common
+point, `∃ s t ∈ [0,1], a + s (b − a) = c + t (d − c)` (proper crossings, touching end points and collinear
+overlaps included). -/
+theorem segments_meet_iff_exists (a b c d : P2 ℝ) : segMeet a b c d = true ↔ SegMeetProp a b c d :=
+  segMeet_iff_exists a b c d
+
+/-- for two edges without a common end point the edge condition is exactly disjointness -/
+theorem edge_condition_nonadjacent (a b c d : P2 ℝ) (h1 : ptEq b c = false) (h2 : ptEq d a = false)
+    (h3 : ptEq a c = false) (h4 : ptEq b d = false) :
+    edgeOK (a, b) (c, d) = true ↔ ¬ SegMeetProp a b c d := by
+  unfold edgeOK
+  simp only [h1, h2, h3, h4, Bool.and_self, Bool.or_self, Bool.false_eq_true, if_false]
+  rw [← segMeet_iff_exists]
+  cases segMeet a b c d <;> simp
 
 /-- the pairwise edge condition is symmetric and direction independent -/
 theorem edge_condition_symm (e f : P2 ℝ × P2 ℝ) :
@@ -218,5 +232,558 @@ theorem polygon_new_fresh (p : Poly ℝ) (h : Polygon.new ndim ncols rows normal
 
 end polygon
 
-end C15
+/-! ### either orientation, any start vertex -/
+
+theorem rowEqb_comm (ncols : Nat) (u v : V3 ℝ) : rowEqb ncols u v = rowEqb ncols v u := by
+  unfold rowEqb; rw [eqb_comm u.x, eqb_comm u.y, eqb_comm u.z]
+
+theorem hasDup_perm (ncols : Nat) {l l' : List (V3 ℝ)} (h : l.Perm l') : hasDup ncols l = hasDup ncols l' := by
+  have key : ∀ m : List (V3 ℝ), hasDup ncols m = !decide (m.Pairwise (fun u v => rowEqb ncols u v = false)) := by
+    intro m
+    cases hm : hasDup ncols m
+    · rw [hasDup_false_iff] at hm; simp [hm]
+    · have : ¬ m.Pairwise (fun u v => rowEqb ncols u v = false) := by
+        rw [← hasDup_false_iff, hm]; simp
+      simp [this]
+  rw [key l, key l']
+  congr 2
+  exact propext (h.pairwise_iff (fun {x y} hxy => by rw [rowEqb_comm]; exact hxy))
+
+/-- Transport of acceptance along any re-listing `T` of the vertex cycle that permutes the list, commutes with
+`map` and preserves `edgesOK` (instances below: reversal, cyclic shift). Hypotheses: a normal is supplied; the
+alignment acts point by point (`np.dot(points, rotation.T)` with a rotation depending on the normal only); the
+vertices are exactly coplanar with respect to the stored normal; the first corner of the re-listed cycle passes
+the orthogonality test. -/
+theorem polygon_new_transport
+    (T : ∀ {γ : Type}, List γ → List γ)
+    (hperm : ∀ {γ : Type} (l : List γ), (T l).Perm l)
+    (hmap : ∀ {γ δ : Type} (f : γ → δ) (l : List γ), T (l.map f) = (T l).map f)
+    (hedges : ∀ l : List (P2 ℝ), edgesOK (T l) = edgesOK l)
+    (ncols : Nat) (rows : List (V3 ℝ)) (nv : V3 ℝ) (ptol : ℝ) (align : V3 ℝ → List (V3 ℝ) → List (V3 ℝ))
+    (R : V3 ℝ → V3 ℝ → V3 ℝ) (hal : ∀ n vs, align n vs = vs.map (R n))
+    (p : Poly ℝ) (hacc : Polygon.new 2 ncols rows (some nv) ptol true align = .ok p)
+    (hplanar : ∀ v ∈ p.vertices, ∀ w ∈ p.vertices, V3.dot p.normal v = V3.dot p.normal w)
+    (hptol : 0 ≤ ptol)
+    (hcorner : chooseNormal (cornerNormal ((T rows).map (pad ncols))) (some nv) = .ok p.normal) :
+    Polygon.new 2 ncols (T rows) (some nv) ptol true align = .ok ⟨T p.vertices, p.normal, .fresh, .fresh⟩ := by
+  obtain ⟨_, hc, h3, hd, _, _, hs, hp⟩ := (polygon_new_accepts_iff 2 ncols rows (some nv) ptol true align p).1 hacc
+  have hv : p.vertices = rows.map (pad ncols) := by rw [hp]
+  rw [polygon_new_accepts_iff]
+  have hTv : (T rows).map (pad ncols) = T p.vertices := by rw [hv, hmap]
+  refine ⟨rfl, hc, ?_, ?_, hcorner, ?_, ?_, ?_⟩
+  · rw [(hperm rows).length_eq]; exact h3
+  · rw [hasDup_perm ncols (hperm rows)]; exact hd
+  · show coplanar p.normal ((T rows).map (pad ncols)) ptol = true
+    rw [coplanar_iff, hTv]
+    have hlen : 0 < (T p.vertices).length := by
+      rw [(hperm p.vertices).length_eq, hv, List.length_map]; omega
+    have h0 : (T p.vertices).getD 0 V3.zero ∈ p.vertices := by
+      apply (hperm p.vertices).mem_iff.1
+      cases hT : T p.vertices with
+      | nil => rw [hT] at hlen; exact absurd hlen (by simp)
+      | cons a t => simp
+    intro v hv'
+    have hvm : v ∈ p.vertices := (hperm p.vertices).mem_iff.1 hv'
+    rw [hplanar v hvm _ h0, sub_self, abs_zero]
+    have : 0 ≤ ptol * |V3.dot p.normal ((T p.vertices).getD 0 V3.zero)| := mul_nonneg hptol (abs_nonneg _)
+    linarith
+  · intro _
+    show edgesOK ((align p.normal ((T rows).map (pad ncols))).map xy) = true
+    have := hs rfl
+    rw [hal, List.map_map] at this
+    rw [hal, List.map_map, ← hmap (pad ncols), ← hmap (xy ∘ R p.normal), hedges]
+    exact this
+  · show (⟨T p.vertices, p.normal, .fresh, .fresh⟩ : Poly ℝ) = ⟨(T rows).map (pad ncols), p.normal, .fresh, .fresh⟩
+    rw [hTv]
+
+/-- **Either orientation.** A polygon accepted with a supplied normal is accepted with its vertices listed in
+the opposite direction (exactly planar vertices; the new first corner must pass the orthogonality test, as it
+does whenever it is not degenerate). -/
+theorem polygon_new_reverse (ncols : Nat) (rows : List (V3 ℝ)) (nv : V3 ℝ) (ptol : ℝ)
+    (align : V3 ℝ → List (V3 ℝ) → List (V3 ℝ)) (R : V3 ℝ → V3 ℝ → V3 ℝ)
+    (hal : ∀ n vs, align n vs = vs.map (R n))
+    (p : Poly ℝ) (hacc : Polygon.new 2 ncols rows (some nv) ptol true align = .ok p)
+    (hplanar : ∀ v ∈ p.vertices, ∀ w ∈ p.vertices, V3.dot p.normal v = V3.dot p.normal w)
+    (hptol : 0 ≤ ptol)
+    (hcorner : chooseNormal (cornerNormal (rows.reverse.map (pad ncols))) (some nv) = .ok p.normal) :
+    Polygon.new 2 ncols rows.reverse (some nv) ptol true align
+      = .ok ⟨p.vertices.reverse, p.normal, .fresh, .fresh⟩ :=
+  polygon_new_transport (fun l => l.reverse) (fun l => List.reverse_perm l)
+    (fun _ _ => (List.map_reverse).symm) edgesOK_reverse ncols rows nv ptol align R hal p hacc hplanar hptol
+    hcorner
+
+/-- **Any start vertex.** Same for every cyclic shift of the vertex list. -/
+theorem polygon_new_shift (k : Nat) (ncols : Nat) (rows : List (V3 ℝ)) (nv : V3 ℝ) (ptol : ℝ)
+    (align : V3 ℝ → List (V3 ℝ) → List (V3 ℝ)) (R : V3 ℝ → V3 ℝ → V3 ℝ)
+    (hal : ∀ n vs, align n vs = vs.map (R n))
+    (p : Poly ℝ) (hacc : Polygon.new 2 ncols rows (some nv) ptol true align = .ok p)
+    (hplanar : ∀ v ∈ p.vertices, ∀ w ∈ p.vertices, V3.dot p.normal v = V3.dot p.normal w)
+    (hptol : 0 ≤ ptol)
+    (hcorner : chooseNormal (cornerNormal ((rows.rotate k).map (pad ncols))) (some nv) = .ok p.normal) :
+    Polygon.new 2 ncols (rows.rotate k) (some nv) ptol true align
+      = .ok ⟨p.vertices.rotate k, p.normal, .fresh, .fresh⟩ :=
+  polygon_new_transport (fun l => l.rotate k) (fun l => List.rotate_perm l k)
+    (fun f l => (List.map_rotate f l k).symm) (fun l => edgesOK_shift l k) ncols rows nv ptol align R hal p
+    hacc hplanar hptol hcorner
+
+/-- for `u, w ⟂ n`, `|n| = 1`: `u × w` is parallel to `n` — `|u × w|² = ((u × w)·n)²` -/
+theorem cross_parallel (n u w : V3 ℝ) (hn : V3.dot n n = 1) (hu : V3.dot n u = 0) (hw : V3.dot n w = 0) :
+    V3.dot (V3.cross u w) (V3.cross u w) = (V3.dot (V3.cross u w) n) ^ 2 := by
+  obtain ⟨nx, ny, nz⟩ := n; obtain ⟨ux, uy, uz⟩ := u; obtain ⟨wx, wy, wz⟩ := w
+  simp only [V3.dot, V3.cross] at *
+  linear_combination
+    (-((uy * wz - uz * wy) ^ 2 + (uz * wx - ux * wz) ^ 2 + (ux * wy - uy * wx) ^ 2)) * hn
+    + ((nx * ux + ny * uy + nz * uz) * (wx * wx + wy * wy + wz * wz)
+        - 2 * (nx * wx + ny * wy + nz * wz) * (ux * wx + uy * wy + uz * wz)) * hu
+    + ((nx * wx + ny * wy + nz * wz) * (ux * ux + uy * uy + uz * uz)) * hw
+
+theorem dot_sdiv (a n : V3 ℝ) (k : ℝ) : V3.dot (V3.sdiv a k) n = V3.dot a n / k := by
+  simp only [V3.dot, V3.sdiv]; ring
+
+theorem unit_of_sdiv (nv : V3 ℝ) (h : V3.norm nv ≠ 0) :
+    V3.dot (V3.sdiv nv (V3.norm nv)) (V3.sdiv nv (V3.norm nv)) = 1 := by
+  have hnn : 0 ≤ V3.dot nv nv := by
+    simp only [V3.dot]; nlinarith [mul_self_nonneg nv.x, mul_self_nonneg nv.y, mul_self_nonneg nv.z]
+  have hsq : V3.norm nv * V3.norm nv = V3.dot nv nv := by
+    unfold V3.norm V3.normSq; rw [Scalar.sqrt_real]; exact Real.mul_self_sqrt hnn
+  simp only [V3.dot, V3.sdiv] at hsq ⊢
+  field_simp
+  linarith
+
+/-- a non-degenerate corner of vertices lying in a plane `n·x = const` (`|n| = 1`) yields ±n exactly -/
+theorem cornerNormal_dot_abs (verts : List (V3 ℝ)) (n : V3 ℝ) (hn : V3.dot n n = 1)
+    (h01 : V3.dot n (verts.getD 0 V3.zero) = V3.dot n (verts.getD 1 V3.zero))
+    (h21 : V3.dot n (verts.getD 2 V3.zero) = V3.dot n (verts.getD 1 V3.zero))
+    (hnd : V3.norm (V3.cross (verts.getD 2 V3.zero - verts.getD 1 V3.zero)
+      (verts.getD 0 V3.zero - verts.getD 1 V3.zero)) ≠ 0) :
+    |V3.dot (cornerNormal verts) n| = 1 := by
+  unfold cornerNormal
+  simp only
+  generalize verts.getD 0 V3.zero = v0 at *
+  generalize verts.getD 1 V3.zero = v1 at *
+  generalize verts.getD 2 V3.zero = v2 at *
+  have hu : V3.dot n (v2 - v1) = 0 := by
+    have : V3.dot n (v2 - v1) = V3.dot n v2 - V3.dot n v1 := by simp only [V3.dot, V3.sub_x, V3.sub_y, V3.sub_z]; ring
+    rw [this, h21, sub_self]
+  have hw : V3.dot n (v0 - v1) = 0 := by
+    have : V3.dot n (v0 - v1) = V3.dot n v0 - V3.dot n v1 := by simp only [V3.dot, V3.sub_x, V3.sub_y, V3.sub_z]; ring
+    rw [this, h01, sub_self]
+  have key := cross_parallel n _ _ hn hu hw
+  rw [dot_sdiv]
+  have hk : V3.norm (V3.cross (v2 - v1) (v0 - v1)) = |V3.dot (V3.cross (v2 - v1) (v0 - v1)) n| := by
+    unfold V3.norm V3.normSq
+    rw [Scalar.sqrt_real, key, Real.sqrt_sq_eq_abs]
+  rw [abs_div, hk, abs_abs]
+  rw [hk] at hnd
+  exact div_self hnd
+
+/-- the orthogonality test of a supplied normal PASSES whenever the first three vertices lie in a plane
+orthogonal to it and the first corner is not degenerate (so the hypothesis `hcorner` of the transport
+theorems is automatic for non-degenerate corners). -/
+theorem chooseNormal_of_planar (verts : List (V3 ℝ)) (nv : V3 ℝ) (hnv : V3.norm nv ≠ 0)
+    (h01 : V3.dot (V3.sdiv nv (V3.norm nv)) (verts.getD 0 V3.zero)
+      = V3.dot (V3.sdiv nv (V3.norm nv)) (verts.getD 1 V3.zero))
+    (h21 : V3.dot (V3.sdiv nv (V3.norm nv)) (verts.getD 2 V3.zero)
+      = V3.dot (V3.sdiv nv (V3.norm nv)) (verts.getD 1 V3.zero))
+    (hnd : V3.norm (V3.cross (verts.getD 2 V3.zero - verts.getD 1 V3.zero)
+      (verts.getD 0 V3.zero - verts.getD 1 V3.zero)) ≠ 0) :
+    chooseNormal (cornerNormal verts) (some nv) = .ok (V3.sdiv nv (V3.norm nv)) := by
+  rw [chooseNormal_some_iff]
+  refine ⟨rfl, ?_⟩
+  rw [cornerNormal_dot_abs verts _ (unit_of_sdiv nv hnv) h01 h21 hnd]
+  norm_num
+
+theorem getD_mem_of_three {γ : Type} (l : List γ) (d : γ) (h : 3 ≤ l.length) :
+    l.getD 0 d ∈ l ∧ l.getD 1 d ∈ l ∧ l.getD 2 d ∈ l := by
+  match l, h with
+  | a :: b :: c :: t, _ => simp
+
+/-- **Either orientation, any start vertex — without the corner hypothesis.** A polygon accepted with a
+supplied (non-zero) normal, whose vertices are exactly coplanar with respect to the stored normal, is accepted
+again after any re-listing `T` of the cycle (reversal, cyclic shift) whose new first corner is not degenerate. -/
+theorem polygon_new_transport_planar
+    (T : ∀ {γ : Type}, List γ → List γ)
+    (hperm : ∀ {γ : Type} (l : List γ), (T l).Perm l)
+    (hmap : ∀ {γ δ : Type} (f : γ → δ) (l : List γ), T (l.map f) = (T l).map f)
+    (hedges : ∀ l : List (P2 ℝ), edgesOK (T l) = edgesOK l)
+    (ncols : Nat) (rows : List (V3 ℝ)) (nv : V3 ℝ) (ptol : ℝ) (align : V3 ℝ → List (V3 ℝ) → List (V3 ℝ))
+    (R : V3 ℝ → V3 ℝ → V3 ℝ) (hal : ∀ n vs, align n vs = vs.map (R n))
+    (p : Poly ℝ) (hacc : Polygon.new 2 ncols rows (some nv) ptol true align = .ok p)
+    (hplanar : ∀ v ∈ p.vertices, ∀ w ∈ p.vertices, V3.dot p.normal v = V3.dot p.normal w)
+    (hptol : 0 ≤ ptol) (hnv : V3.norm nv ≠ 0)
+    (hnd : V3.norm (V3.cross ((T p.vertices).getD 2 V3.zero - (T p.vertices).getD 1 V3.zero)
+      ((T p.vertices).getD 0 V3.zero - (T p.vertices).getD 1 V3.zero)) ≠ 0) :
+    Polygon.new 2 ncols (T rows) (some nv) ptol true align = .ok ⟨T p.vertices, p.normal, .fresh, .fresh⟩ := by
+  obtain ⟨_, _, h3, _, hn, _, _, hp⟩ := (polygon_new_accepts_iff 2 ncols rows (some nv) ptol true align p).1 hacc
+  have hv : p.vertices = rows.map (pad ncols) := by rw [hp]
+  have hTv : (T rows).map (pad ncols) = T p.vertices := by rw [hv, hmap]
+  have hnormal : p.normal = V3.sdiv nv (V3.norm nv) := ((chooseNormal_some_iff _ _ _).1 hn).1
+  apply polygon_new_transport T hperm hmap hedges ncols rows nv ptol align R hal p hacc hplanar hptol
+  rw [hTv, hnormal]
+  have hlen : 3 ≤ (T p.vertices).length := by
+    rw [(hperm p.vertices).length_eq, hv, List.length_map]; exact h3
+  obtain ⟨m0, m1, m2⟩ := getD_mem_of_three (T p.vertices) V3.zero hlen
+  have mem : ∀ x, x ∈ T p.vertices → x ∈ p.vertices := fun x hx => (hperm p.vertices).mem_iff.1 hx
+  apply chooseNormal_of_planar _ _ hnv
+  · rw [← hnormal]; exact hplanar _ (mem _ m0) _ (mem _ m1)
+  · rw [← hnormal]; exact hplanar _ (mem _ m2) _ (mem _ m1)
+  · exact hnd
+
+/-- **a simple planar polygon is accepted in either orientation** (supplied normal, exactly planar vertices,
+non-degenerate new first corner) -/
+theorem polygon_new_reverse_planar (ncols : Nat) (rows : List (V3 ℝ)) (nv : V3 ℝ) (ptol : ℝ)
+    (align : V3 ℝ → List (V3 ℝ) → List (V3 ℝ)) (R : V3 ℝ → V3 ℝ → V3 ℝ)
+    (hal : ∀ n vs, align n vs = vs.map (R n))
+    (p : Poly ℝ) (hacc : Polygon.new 2 ncols rows (some nv) ptol true align = .ok p)
+    (hplanar : ∀ v ∈ p.vertices, ∀ w ∈ p.vertices, V3.dot p.normal v = V3.dot p.normal w)
+    (hptol : 0 ≤ ptol) (hnv : V3.norm nv ≠ 0)
+    (hnd : V3.norm (V3.cross (p.vertices.reverse.getD 2 V3.zero - p.vertices.reverse.getD 1 V3.zero)
+      (p.vertices.reverse.getD 0 V3.zero - p.vertices.reverse.getD 1 V3.zero)) ≠ 0) :
+    Polygon.new 2 ncols rows.reverse (some nv) ptol true align
+      = .ok ⟨p.vertices.reverse, p.normal, .fresh, .fresh⟩ :=
+  polygon_new_transport_planar (fun l => l.reverse) (fun l => List.reverse_perm l)
+    (fun _ _ => (List.map_reverse).symm) edgesOK_reverse ncols rows nv ptol align R hal p hacc hplanar hptol
+    hnv hnd
+
+/-- … and from any start vertex -/
+theorem polygon_new_shift_planar (k : Nat) (ncols : Nat) (rows : List (V3 ℝ)) (nv : V3 ℝ) (ptol : ℝ)
+    (align : V3 ℝ → List (V3 ℝ) → List (V3 ℝ)) (R : V3 ℝ → V3 ℝ → V3 ℝ)
+    (hal : ∀ n vs, align n vs = vs.map (R n))
+    (p : Poly ℝ) (hacc : Polygon.new 2 ncols rows (some nv) ptol true align = .ok p)
+    (hplanar : ∀ v ∈ p.vertices, ∀ w ∈ p.vertices, V3.dot p.normal v = V3.dot p.normal w)
+    (hptol : 0 ≤ ptol) (hnv : V3.norm nv ≠ 0)
+    (hnd : V3.norm (V3.cross ((p.vertices.rotate k).getD 2 V3.zero - (p.vertices.rotate k).getD 1 V3.zero)
+      ((p.vertices.rotate k).getD 0 V3.zero - (p.vertices.rotate k).getD 1 V3.zero)) ≠ 0) :
+    Polygon.new 2 ncols (rows.rotate k) (some nv) ptol true align
+      = .ok ⟨p.vertices.rotate k, p.normal, .fresh, .fresh⟩ :=
+  polygon_new_transport_planar (fun l => l.rotate k) (fun l => List.rotate_perm l k)
+    (fun f l => (List.map_rotate f l k).symm) (fun l => edgesOK_shift l k) ncols rows nv ptol align R hal p
+    hacc hplanar hptol hnv hnd
+
+/-! ## 3. `ConvexPolygon.__init__` and `_reorder_verts` -/
+
+/-- **Decision logic of `ConvexPolygon.__init__`** (modulo the Qhull contract `hullCount`): accepted iff the
+polygon checks pass (no simplicity test) and Qhull reports every point as a hull vertex; the stored vertices
+are the re-ordered ones. -/
+theorem convex_new_iff (ndim ncols : Nat) (rows : List (V3 ℝ)) (normal : Option (V3 ℝ)) (ptol : ℝ)
+    (hullCount : V3 ℝ → List (V3 ℝ) → Nat) (align : V3 ℝ → List (V3 ℝ) → List (V3 ℝ)) (q : Poly ℝ) :
+    ConvexPolygon.new ndim ncols rows normal ptol hullCount align = .ok q ↔
+      ∃ p, Polygon.new ndim ncols rows normal ptol false align = .ok p ∧
+        hullCount p.normal p.vertices = p.vertices.length ∧
+        q = { p with vertices := reorder (align p.normal (p.vertices.map (· - mean3 p.vertices))) p.vertices } := by
+  unfold ConvexPolygon.new
+  cases h : Polygon.new ndim ncols rows normal ptol false align with
+  | error e =>
+    simp only
+    constructor
+    · intro h'; cases h'
+    · rintro ⟨p, hp, _⟩; cases hp
+  | ok p =>
+    simp only [beq_iff_eq]
+    split_ifs with hh
+    · constructor
+      · intro h'; injection h' with h'; exact ⟨p, rfl, hh, h'.symm⟩
+      · rintro ⟨p', hp', _, hq⟩; injection hp' with hp'; subst hp'; rw [hq]
+    · constructor
+      · intro h'; cases h'
+      · rintro ⟨p', hp', hh', _⟩; injection hp' with hp'; subst hp'; exact absurd hh' hh
+
+/-- a point that is not a hull vertex (Qhull's count is short) is rejected with the convexity message -/
+theorem convex_new_rejects_nonhull (ndim ncols : Nat) (rows : List (V3 ℝ)) (normal : Option (V3 ℝ)) (ptol : ℝ)
+    (hullCount : V3 ℝ → List (V3 ℝ) → Nat) (align : V3 ℝ → List (V3 ℝ) → List (V3 ℝ)) (p : Poly ℝ)
+    (hp : Polygon.new ndim ncols rows normal ptol false align = .ok p)
+    (hh : hullCount p.normal p.vertices ≠ p.vertices.length) :
+    ConvexPolygon.new ndim ncols rows normal ptol hullCount align = .error "ValueError:convex" := by
+  unfold ConvexPolygon.new
+  rw [hp]
+  simp only [beq_iff_eq, if_neg hh]
+
+section reorder
+variable {β : Type}
+
+theorem sortKeys_length (rot : List (V3 ℝ)) : (sortKeys rot).length = rot.length := by
+  unfold sortKeys relAngles
+  simp
+
+/-- **`reorder_is_perm`**: `_reorder_verts` only permutes the vertices — nothing is lost, duplicated or
+changed (for ANY alignment result of the right length). -/
+theorem reorder_is_perm (rot : List (V3 ℝ)) (payload : List β) (hlen : rot.length = payload.length) :
+    (reorder rot payload).Perm payload := by
+  unfold reorder
+  have h1 := (isort_perm (List.zip (sortKeys rot) payload)).map (·.2)
+  refine h1.trans ?_
+  have : (List.zip (sortKeys rot) payload).map (·.2) = payload := by
+    apply List.map_snd_zip
+    rw [sortKeys_length, hlen]
+  rw [this]
+
+theorem c15_two_pi_pos : (0:ℝ) < Scalar.lit 2 * Scalar.pi := by
+  rw [lit_two, Scalar.pi_real]; exact mul_pos two_pos Real.pi_pos
+
+theorem relAngles_cons (r0 : V3 ℝ) (rs : List (V3 ℝ)) :
+    relAngles (r0 :: rs) = 0 :: rs.map (fun v => pmod (Scalar.atan2 v.y v.x - Scalar.atan2 r0.y r0.x)
+      (Scalar.lit 2 * Scalar.pi)) := by
+  unfold relAngles
+  simp only [List.map_cons, List.getD_cons_zero, sub_self, pmod_zero, List.map_map]
+  rfl
+
+theorem relAngles_nonneg (rot : List (V3 ℝ)) : ∀ a ∈ relAngles rot, 0 ≤ a ∧ a < Scalar.lit 2 * Scalar.pi := by
+  intro a ha
+  unfold relAngles at ha
+  simp only [List.map_map, List.mem_map] at ha
+  obtain ⟨v, _, rfl⟩ := ha
+  exact ⟨pmod_nonneg _ c15_two_pi_pos, pmod_lt _ c15_two_pi_pos⟩
+
+/-- **`reorder_keeps_first`**: vertex 0 stays first (its relative angle is exactly 0, every relative angle is
+in `[0, 2π)`, the sort is stable) PROVIDED no other vertex has relative angle 0 and a strictly smaller
+distance from the vertex mean — i.e. no other vertex lies on the ray from the mean through vertex 0 strictly
+closer than vertex 0 (impossible for points in convex position about an interior mean). -/
+theorem reorder_keeps_first (r0 : V3 ℝ) (rs : List (V3 ℝ)) (v0 : β) (vs : List β)
+    (hray : ∀ k ∈ sortKeys (r0 :: rs) |>.tail, k.1 = 0 → V3.norm r0 ≤ k.2) :
+    (reorder (r0 :: rs) (v0 :: vs)).head? = some v0 := by
+  unfold reorder
+  have hk : sortKeys (r0 :: rs) = (0, V3.norm r0) :: (sortKeys (r0 :: rs)).tail := by
+    unfold sortKeys; rw [relAngles_cons]; simp
+  rw [hk, List.zip_cons_cons, List.head?_map]
+  rw [isort_head]
+  · rfl
+  · intro y hy
+    rw [keyLe_iff]
+    have hy1 : y.1 ∈ (sortKeys (r0 :: rs)).tail := (List.of_mem_zip hy).1
+    have hnn : 0 ≤ y.1.1 := by
+      have hmem : y.1 ∈ sortKeys (r0 :: rs) := List.mem_of_mem_tail hy1
+      unfold sortKeys at hmem
+      exact (relAngles_nonneg _ _ (List.of_mem_zip hmem).1).1
+    rcases hnn.lt_or_eq with h | h
+    · exact Or.inl h
+    · exact Or.inr ⟨h, hray y.1 hy1 h.symm⟩
+
+/-- **`reorder_ccw_partial`**: the re-ordered vertices come with non-decreasing polar angle (measured in the
+aligned frame, about the vertex mean, from vertex 0; ties by increasing distance): there is a sorted list `s`
+of (key, vertex) pairs — a permutation of the input pairs — whose vertex column is the output.
+MISSING for the full statement "counter-clockwise about the normal": (i) the kabsch contract (`align` is a
+proper rotation taking the normal to +z) and (ii) the geometric step that increasing `atan2` order of points in
+convex position around an interior point is the counter-clockwise boundary order; the check establishes both
+on every run through the exact oracle `Spec.ccwConvex` evaluated on the constructed object. -/
+theorem reorder_ccw_partial (rot : List (V3 ℝ)) (payload : List β) :
+    ∃ s : List ((ℝ × ℝ) × β),
+      s.Perm (List.zip (sortKeys rot) payload) ∧ s.map (·.2) = reorder rot payload ∧
+      s.Pairwise (fun a b => a.1.1 < b.1.1 ∨ (a.1.1 = b.1.1 ∧ a.1.2 ≤ b.1.2)) := by
+  refine ⟨isort keyLt (List.zip (sortKeys rot) payload), isort_perm _, rfl, ?_⟩
+  exact (isort_sorted _).imp (fun {a b} h => (keyLe_iff a b).1 h)
+
+end reorder
+
+/-! ## 4. `ConvexPolyhedron`, spheropolytopes -/
+
+/-- **Decision logic of `ConvexPolyhedron.__init__`**: accepted iff Qhull succeeds and reports every input
+point as a hull vertex; the stored vertex array is a copy in the input order. -/
+theorem convexpolyhedron_new_iff (rows : List (V3 ℝ)) (hull : List (V3 ℝ) → Except String Nat) (p : Polyh ℝ) :
+    ConvexPolyhedron.new rows hull = .ok p ↔ hull rows = .ok rows.length ∧ p = ⟨rows, .fresh⟩ := by
+  unfold ConvexPolyhedron.new
+  cases h : hull rows with
+  | error e => simp
+  | ok n =>
+    simp only [beq_iff_eq]
+    split_ifs with hh
+    · subst hh
+      constructor
+      · intro h'; injection h' with h'; exact ⟨rfl, h'.symm⟩
+      · rintro ⟨_, hp⟩; rw [hp]
+    · constructor
+      · intro h'; cases h'
+      · rintro ⟨h', _⟩; injection h' with h'; exact absurd h' hh
+
+theorem convexpolyhedron_new_rejects_nonhull (rows : List (V3 ℝ)) (hull : List (V3 ℝ) → Except String Nat)
+    (n : Nat) (h : hull rows = .ok n) (hn : n ≠ rows.length) :
+    ConvexPolyhedron.new rows hull = .error "ValueError:convex" := by
+  unfold ConvexPolyhedron.new; rw [h]; simp only [beq_iff_eq, if_neg hn]
+
+/-- **ConvexSpheropolygon: the radius guard comes FIRST** — a negative rounding radius is reported whatever
+the vertices are. -/
+theorem spheropolygon_new_rejects_negative (ndim ncols : Nat) (rows : List (V3 ℝ)) (radius : ℝ)
+    (normal : Option (V3 ℝ)) (hullCount : V3 ℝ → List (V3 ℝ) → Nat)
+    (align : V3 ℝ → List (V3 ℝ) → List (V3 ℝ)) (h : radius < 0) :
+    ConvexSpheropolygon.new ndim ncols rows radius normal hullCount align = .error "ValueError:radius" := by
+  unfold ConvexSpheropolygon.new
+  rw [if_neg (by rw [lit_zero]; exact not_le.2 h)]
+
+/-- … and every radius `≥ 0` — in particular 0 — is accepted exactly when the convex polygon is -/
+theorem spheropolygon_new_accepts_nonneg (ndim ncols : Nat) (rows : List (V3 ℝ)) (radius : ℝ)
+    (normal : Option (V3 ℝ)) (hullCount : V3 ℝ → List (V3 ℝ) → Nat)
+    (align : V3 ℝ → List (V3 ℝ) → List (V3 ℝ)) (h : 0 ≤ radius) (p : Poly ℝ)
+    (hp : ConvexPolygon.new ndim ncols rows normal (1 / 100000) hullCount align = .ok p)
+    (hh : hullCount p.normal p.vertices = p.vertices.length) :
+    ConvexSpheropolygon.new ndim ncols rows radius normal hullCount align = .ok ⟨radius, p⟩ := by
+  unfold ConvexSpheropolygon.new
+  rw [if_pos (by rw [lit_zero]; exact h)]
+  have : (Scalar.q 1 100000 : ℝ) = 1 / 100000 := by simp [Scalar.q]
+  rw [this, hp]
+  simp only [beq_iff_eq, if_pos hh]
+
+theorem spheropolygon_new_propagates (ndim ncols : Nat) (rows : List (V3 ℝ)) (radius : ℝ)
+    (normal : Option (V3 ℝ)) (hullCount : V3 ℝ → List (V3 ℝ) → Nat)
+    (align : V3 ℝ → List (V3 ℝ) → List (V3 ℝ)) (h : 0 ≤ radius) (e : String)
+    (hp : ConvexPolygon.new ndim ncols rows normal (1 / 100000) hullCount align = .error e) :
+    ConvexSpheropolygon.new ndim ncols rows radius normal hullCount align = .error e := by
+  unfold ConvexSpheropolygon.new
+  rw [if_pos (by rw [lit_zero]; exact h)]
+  have : (Scalar.q 1 100000 : ℝ) = 1 / 100000 := by simp [Scalar.q]
+  rw [this, hp]
+
+/-- **ConvexSpheropolyhedron: the radius guard comes LAST** — invalid vertices are reported first, even with
+a negative radius … -/
+theorem spheropolyhedron_new_vertices_first (rows : List (V3 ℝ)) (radius : ℝ)
+    (hull : List (V3 ℝ) → Except String Nat) (e : String) (h : ConvexPolyhedron.new rows hull = .error e) :
+    ConvexSpheropolyhedron.new rows radius hull = .error e := by
+  unfold ConvexSpheropolyhedron.new; rw [h]
+
+/-- … a negative radius is rejected for valid vertices, and every radius `≥ 0` (incl. 0) is accepted. -/
+theorem spheropolyhedron_new_radius (rows : List (V3 ℝ)) (radius : ℝ)
+    (hull : List (V3 ℝ) → Except String Nat) (p : Polyh ℝ) (h : ConvexPolyhedron.new rows hull = .ok p) :
+    (radius < 0 → ConvexSpheropolyhedron.new rows radius hull = .error "ValueError:radius") ∧
+    (0 ≤ radius → ConvexSpheropolyhedron.new rows radius hull = .ok ⟨radius, p⟩) := by
+  unfold ConvexSpheropolyhedron.new; rw [h]
+  simp only [lit_zero]
+  constructor
+  · intro hr; rw [if_neg (not_le.2 hr)]
+  · intro hr; rw [if_pos hr]
+
+/-! ## 5. curved shapes: `value > 0` guards in assignment order; the centre is copied -/
+
+/-- **Circle / Sphere**: `r ≤ 0 → ValueError`; `r > 0` constructs, storing `r`, the centre's value, and a NEW
+centre array. -/
+theorem circle_new_guard (r : ℝ) (c : V3 ℝ) :
+    (r ≤ 0 → Circle.new r c = .error "ValueError:radius") ∧
+    (0 < r → Circle.new r c = .ok ⟨r, c, .fresh⟩) := by
+  unfold Circle.new; simp only [lit_zero]
+  exact ⟨fun h => by rw [if_neg (not_lt.2 h)], fun h => by rw [if_pos h]⟩
+
+theorem sphere_new_guard (r : ℝ) (c : V3 ℝ) :
+    (r ≤ 0 → Sphere.new r c = .error "ValueError:radius") ∧
+    (0 < r → Sphere.new r c = .ok ⟨r, c, .fresh⟩) := by
+  unfold Sphere.new; simp only [lit_zero]
+  exact ⟨fun h => by rw [if_neg (not_lt.2 h)], fun h => by rw [if_pos h]⟩
+
+/-- **Ellipse**: `a` is checked (and reported) first, then `b`. -/
+theorem ellipse_new_guard (a b : ℝ) (c : V3 ℝ) :
+    (a ≤ 0 → Ellipse.new a b c = .error "ValueError:a") ∧
+    (0 < a → b ≤ 0 → Ellipse.new a b c = .error "ValueError:b") ∧
+    (0 < a → 0 < b → Ellipse.new a b c = .ok ⟨a, b, c, .fresh⟩) := by
+  unfold Ellipse.new; simp only [lit_zero]
+  refine ⟨fun h => by rw [if_neg (not_lt.2 h)], fun ha hb => by rw [if_pos ha, if_neg (not_lt.2 hb)],
+    fun ha hb => by rw [if_pos ha, if_pos hb]⟩
+
+/-- **Ellipsoid**: `a`, then `b`, then `c`. -/
+theorem ellipsoid_new_guard (a b c : ℝ) (ce : V3 ℝ) :
+    (a ≤ 0 → Ellipsoid.new a b c ce = .error "ValueError:a") ∧
+    (0 < a → b ≤ 0 → Ellipsoid.new a b c ce = .error "ValueError:b") ∧
+    (0 < a → 0 < b → c ≤ 0 → Ellipsoid.new a b c ce = .error "ValueError:c") ∧
+    (0 < a → 0 < b → 0 < c → Ellipsoid.new a b c ce = .ok ⟨a, b, c, ce, .fresh⟩) := by
+  unfold Ellipsoid.new; simp only [lit_zero]
+  refine ⟨fun h => by rw [if_neg (not_lt.2 h)], fun ha hb => by rw [if_pos ha, if_neg (not_lt.2 hb)],
+    fun ha hb hc => by rw [if_pos ha, if_pos hb, if_neg (not_lt.2 hc)],
+    fun ha hb hc => by rw [if_pos ha, if_pos hb, if_pos hc]⟩
+
+/-- **`ctor_fresh_arrays`**: no constructor of the model stores a caller array. -/
+theorem ctor_fresh_arrays :
+    (∀ (r : ℝ) (c : V3 ℝ) o, Circle.new r c = .ok o → o.centroidSrc = .fresh) ∧
+    (∀ (r : ℝ) (c : V3 ℝ) o, Sphere.new r c = .ok o → o.centroidSrc = .fresh) ∧
+    (∀ (a b : ℝ) (c : V3 ℝ) o, Ellipse.new a b c = .ok o → o.centroidSrc = .fresh) ∧
+    (∀ (a b c : ℝ) (ce : V3 ℝ) o, Ellipsoid.new a b c ce = .ok o → o.centroidSrc = .fresh) ∧
+    (∀ (rows : List (V3 ℝ)) hull o, ConvexPolyhedron.new rows hull = .ok o → o.verticesSrc = .fresh) := by
+  refine ⟨?_, ?_, ?_, ?_, ?_⟩
+  · intro r c o h; unfold Circle.new at h; split_ifs at h; injection h with h; rw [← h]
+  · intro r c o h; unfold Sphere.new at h; split_ifs at h; injection h with h; rw [← h]
+  · intro a b c o h; unfold Ellipse.new at h; split_ifs at h; injection h with h; rw [← h]
+  · intro a b c ce o h; unfold Ellipsoid.new at h; split_ifs at h; injection h with h; rw [← h]
+  · intro rows hull o h
+    rw [convexpolyhedron_new_iff] at h; rw [h.2]
+
+/-! ## 6. non-vacuity: concrete inputs meeting the hypotheses -/
+
+macro "c15_eval" : tactic => `(tactic|
+  (simp only [Spec.simple, distinct, edgesOK, cycEdges, path, allPairs, edgeOK, ptEq, foldBack, onSeg, segMeet,
+    orient, between, oppositeSigns, Scalar.eqb, List.all_cons, List.all_nil, List.cons_append, List.nil_append,
+    lit_zero, List.length_cons, List.length_nil, List.map_cons, List.map_nil, xy]
+   norm_num))
+
+def exSquare : List (P2 ℝ) := [⟨0,0⟩,⟨1,0⟩,⟨1,1⟩,⟨0,1⟩]
+def exBowtie : List (P2 ℝ) := [⟨0,0⟩,⟨1,1⟩,⟨1,0⟩,⟨0,1⟩]
+def exSquare3 : List (V3 ℝ) := [⟨0,0,0⟩,⟨1,0,0⟩,⟨1,1,0⟩,⟨0,1,0⟩]
+def exBowtie3 : List (V3 ℝ) := [⟨0,0,0⟩,⟨1,1,0⟩,⟨1,0,0⟩,⟨0,1,0⟩]
+
+/-- the unit square is simple, in both orientations and from any start vertex (by the theorems above) … -/
+example : Spec.simple exSquare = true := by unfold exSquare; c15_eval
+example : Spec.simple exSquare.reverse = true := by rw [simple_reverse]; unfold exSquare; c15_eval
+example : Spec.simple (exSquare.rotate 3) = true := by rw [simple_shift]; unfold exSquare; c15_eval
+/-- … the bow-tie (two vertices swapped) is not: its edges (0,0)-(1,1) and (1,0)-(0,1) cross -/
+example : Spec.simple exBowtie = false := by unfold exBowtie; c15_eval
+example : segMeet (⟨0,0⟩ : P2 ℝ) ⟨1,1⟩ ⟨1,0⟩ ⟨0,1⟩ = true := by c15_eval
+example : segMeet (⟨0,0⟩ : P2 ℝ) ⟨1,0⟩ ⟨1,1⟩ ⟨0,1⟩ = false := by c15_eval
+
+theorem pad_three (v : V3 ℝ) : pad 3 v = v := by simp [pad]
+
+theorem exSquare3_normal : cornerNormal (exSquare3.map (pad 3)) = ⟨0,0,1⟩ := by
+  simp [cornerNormal, exSquare3, pad, V3.cross, V3.sdiv, V3.norm, V3.normSq, V3.dot]
+
+/-- `polygon_new_accepts_iff` on the unit square in the plane z = 0 (identity alignment): accepted, normal +z -/
+example : Polygon.new 2 3 exSquare3 none (1/100000) true (fun _ vs => vs)
+    = .ok ⟨exSquare3, ⟨0,0,1⟩, .fresh, .fresh⟩ := by
+  rw [polygon_new_accepts_iff]
+  refine ⟨rfl, Or.inr rfl, by simp [exSquare3], ?_, ?_, ?_, ?_, ?_⟩
+  · simp [exSquare3, hasDup, rowEqb, Scalar.eqb]
+  · rw [chooseNormal_none, exSquare3_normal]
+  · rw [coplanar_iff]; simp [exSquare3, pad, V3.dot, V3.zero]
+  · intro _; simp only [exSquare3, List.map_cons, List.map_nil, pad_three]; c15_eval
+  · simp [exSquare3, pad]
+
+/-- … and the bow-tie is rejected by the simplicity test -/
+example : ∀ p, Polygon.new 2 3 exBowtie3 none (1/100000) true (fun _ vs => vs) ≠ .ok p := by
+  intro p h
+  rw [polygon_new_accepts_iff] at h
+  obtain ⟨_, _, _, _, _, _, hs, _⟩ := h
+  have := hs rfl
+  simp only [exBowtie3, List.map_cons, List.map_nil, pad_three] at this
+  revert this
+  c15_eval
+
+example : Polygon.new 2 3 ([⟨0,0,0⟩,⟨1,0,0⟩] : List (V3 ℝ)) none (1/100000) true (fun _ vs => vs)
+    = .error "ValueError:short" :=
+  polygon_new_rejects_short _ _ _ _ _ _ _ ⟨rfl, Or.inr rfl⟩ (by simp)
+
+example : Polygon.new 2 3 ([⟨0,0,0⟩,⟨1,0,0⟩,⟨1,1,0⟩,⟨1,0,0⟩] : List (V3 ℝ)) none (1/100000) true (fun _ vs => vs)
+    = .error "ValueError:duplicate" :=
+  polygon_new_rejects_repeated_point _ _ _ _ _ (by simp) (by simp)
+
+/-- guards: 0 and negative values are rejected, the first offending field is the one reported -/
+example : Circle.new (0:ℝ) ⟨1,2,3⟩ = .error "ValueError:radius" := (circle_new_guard 0 _).1 le_rfl
+example : Sphere.new (2:ℝ) ⟨1,2,3⟩ = .ok ⟨2, ⟨1,2,3⟩, .fresh⟩ := (sphere_new_guard 2 _).2 two_pos
+example : Ellipse.new (-1:ℝ) (-1) ⟨0,0,0⟩ = .error "ValueError:a" := (ellipse_new_guard _ _ _).1 (by norm_num)
+example : Ellipsoid.new (1:ℝ) 2 0 ⟨0,0,0⟩ = .error "ValueError:c" :=
+  (ellipsoid_new_guard _ _ _ _).2.2.1 one_pos two_pos le_rfl
+
+/-- rounding radius 0 is accepted (given a valid polyhedron), −1 is not -/
+example (rows : List (V3 ℝ)) :
+    ConvexSpheropolyhedron.new rows 0 (fun l => .ok l.length) = .ok ⟨0, ⟨rows, .fresh⟩⟩ :=
+  (spheropolyhedron_new_radius rows 0 _ ⟨rows, .fresh⟩
+    ((convexpolyhedron_new_iff rows _ _).2 ⟨rfl, rfl⟩)).2 le_rfl
+example (rows : List (V3 ℝ)) :
+    ConvexSpheropolyhedron.new rows (-1) (fun l => .ok l.length) = .error "ValueError:radius" :=
+  (spheropolyhedron_new_radius rows (-1) _ ⟨rows, .fresh⟩
+    ((convexpolyhedron_new_iff rows _ _).2 ⟨rfl, rfl⟩)).1 (by norm_num)
+
+/-- `reorder_keeps_first` in the tie case: a second point on the same ray, farther out, stays behind vertex 0 -/
+example : (reorder ([⟨1,0,0⟩, ⟨2,0,0⟩] : List (V3 ℝ)) ["v0", "v1"]).head? = some "v0" := by
+  apply reorder_keeps_first
+  intro k hk _
+  have h2 : (⟨2, 0⟩ : ℂ) = ((2:ℝ) : ℂ) := by apply Complex.ext <;> simp
+  have h1 : (⟨1, 0⟩ : ℂ) = ((1:ℝ) : ℂ) := by apply Complex.ext <;> simp
+  simp only [sortKeys, relAngles, List.map_cons, List.map_nil, List.zip_cons_cons, List.zip_nil_right,
+    List.tail_cons, List.mem_singleton] at hk
+  rw [hk]
+  simp only [V3.norm, V3.normSq, V3.dot, Scalar.sqrt_real]
+  apply Real.sqrt_le_sqrt
+  norm_num
+
 end
